@@ -16,7 +16,7 @@ Separate Extraction
   Wire.strip_req
   SizeLimit.msg_size_ok SizeLimit.rpc_size_outcome
   Timeout.parse_u64 Timeout.header_timeout Timeout.duration_to_timeout Timeout.effective
-  Timeout.layer_outcome Timeout.rpc_outcome Timeout.timeout_key
+  Timeout.layer_outcome Timeout.rpc_outcome Timeout.rpc_outcome_w Timeout.timeout_key
   AuthLayer.run AuthLayer.allowed_peers AuthLayer.invocations
   Inflight.step Inflight.gauge Inflight.run
   Gcra.rate_call Gcra.check_key Gcra.admitted_in
